@@ -28,12 +28,18 @@ CLASSES = {
 }
 
 # response kind -> (selector text, handler list it needs)
+RELAY = ["gem", "tg", "th_get", "tgp_plus"]
 KINDS = {
     "document": ("/big.txt", None), "menu": ("/d", None), "error page": ("/nofile", None),
     "mailbox message": ("/m.mbox|/MBOX-MESSAGE/1", None), "maildir message": ("/md|/MAILDIR-MESSAGE/2", None),
     "html document": ("/page.html", None), "gophermap menu": ("/gm", None), "mailbox menu": ("/m.mbox", None),
     "ZIP member": ("/z.zip/sub/inner.txt", "full"), "ZIP menu": ("/z.zip", "full"), "PYG document": ("/p.pyg", "full"),
     "URL page": ("/URL:http://x.org/", None), "root menu": ("/", None),
+    # large decompressed documents over the RELAY branch of CompressedFileHandler (TLS: the stream is no plain
+    # descriptor): decompressed sizes on both sides of the copy buffer (64 KiB) and of copy buffer + pipe (128 KiB);
+    # third element = the frames this kind is requested through (relay needs TLS)
+    "decompressed 60K (relay)": ("/gz/k60.txt.gz", "full", RELAY), "decompressed 70K (relay)": ("/gz/k70.txt.gz", "full", RELAY),
+    "decompressed 130K (relay)": ("/gz/k130.txt.gz", "full", RELAY), "decompressed 200K (relay)": ("/gz/k200.txt.gz", "full", RELAY),
 }
 # protocol frame -> (line template, tls, tail)       (frames as in spec/MC_C03.tla LineOf)
 FRAMES = {
@@ -46,10 +52,11 @@ FRAMES = {
 }
 TIERS = {
     "quick": dict(frames=["g", "gp_plus", "h_get", "w_get", "gem", "s"],
-                  kinds=["document", "menu", "error page", "mailbox message", "ZIP member", "html document"],
+                  kinds=["document", "menu", "error page", "mailbox message", "ZIP member", "html document",
+                         "decompressed 70K (relay)", "decompressed 200K (relay)"], relay=["gem", "tg"],
                   info=["document", "mailbox message"], hls=["default", "full"], sockets=0),
     "thorough": dict(frames=["g", "gp_plus", "gp_dir", "h_get", "h_head", "w_get", "gem", "s", "tg", "th_get", "tgp_plus"],
-                     kinds=list(KINDS), info=["document", "menu", "mailbox message", "ZIP member", "error page"],
+                     kinds=list(KINDS), relay=RELAY, info=["document", "menu", "mailbox message", "ZIP member", "error page"],
                      hls=["default", "full"], sockets=12),
 }
 MC_CFG = """SPECIFICATION C20Spec
@@ -77,12 +84,14 @@ def base_requests(tier):
     out = []
     for hl in t["hls"]:
         for kind in t["kinds"]:
-            sel, need = KINDS[kind]
+            sel, need = KINDS[kind][:2]
+            only = KINDS[kind][2] if len(KINDS[kind]) > 2 else None
             if need == "full" and hl != "full":
                 continue
             if need is None and hl == "full" and kind not in ("document", "menu", "error page"):
                 continue                              # the full list repeats only the three basic kinds
-            for f in list(t["frames"]) + (["gp_info"] if kind in t["info"] else []):
+            for f in ([x for x in only if x in t["relay"]] if only else
+                      list(t["frames"]) + (["gp_info"] if kind in t["info"] else [])):
                 tpl, tls, tail = FRAMES[f]
                 out.append({"line": tpl % sel, "tls": tls, "wap": False, "hl": hl, "tail": tail, "fk": 0, "fcls": "none",
                             "nw": 0, "id": "%s :: %s :: %s" % (f, sel, hl), "kind": kind, "frame": f})
@@ -157,7 +166,7 @@ def main(chk, replay=None):
             for st in iter_dump_states(res["dump"], wanted={"pc", "rq", "site", "log", "esc", "mark"}):
                 if st["pc"] == "closed":
                     rq = c03._rq(st["rq"])
-                    jobs[(rq["id"], rq["fk"], rq["fcls"])] = (rq, st["site"], [r["cls"] for r in st["log"]])
+                    jobs[(rq["id"], rq["fk"], rq["fcls"])] = (rq, st["site"], [r["cls"] for r in st["log"]], st["mark"])
         finally:
             tlc.cleanup(res)
         # 3. spec -> code: fail the k-th write of the real server with that class
@@ -165,13 +174,13 @@ def main(chk, replay=None):
         for hl in t["hls"]:
             ks = [k for k in keys if jobs[k][0]["hl"] == hl]
             for k, (ev, extra) in zip(ks, c03._pool(_inject, [jobs[k][0] for k in ks], hl)):
-                rq, site, mlog = jobs[k]
+                rq, site, mlog, mmark = jobs[k]
                 b = base_by_id[rq["id"]][0]
                 traces.append({"id": "%s k=%d/%d %s" % (rq["id"], rq["fk"], rq["nw"], rq["fcls"]),
                                "init": {"prop": "C20", "hl": hl}, "events": [ev], "extras": [extra],
                                "case": {"trace_id": "%s k=%d/%d %s" % (rq["id"], rq["fk"], rq["nw"], rq["fcls"]),
                                         "rq": rq, "hl": hl, "kind": b["kind"], "frame": b["frame"], "k": rq["fk"], "nw": rq["nw"],
-                                        "fcls": rq["fcls"], "site": site, "model_log": mlog}})
+                                        "fcls": rq["fcls"], "site": site, "model_log": mlog, "model_mark": mmark}})
         # 4. real sockets through the unmodified handler class (its own buffering): client gone before / while
         traces.extend(c03._pool(_socketpair_family, [0], "default")[0])
         # 5. real loopback server: the client resets the connection mid-transfer (thorough)
@@ -199,8 +208,12 @@ def main(chk, replay=None):
     protos = sorted({tr["events"][0]["proto"] for tr in traces})
     kinds = sorted({tr["case"].get("kind", "?") for tr in traces})
     two_records = sum(1 for tr in traces if len(tr["events"][0]["log"]) - max(tr["events"][0]["mark"], 0) >= 2)
-    if not replay and (two_records == 0 or len(protos) < 4):
-        raise core.MachineryError("C20: the double-failure path (protocol catch, then server catch) was never observed")
+    # vacuity of the CASE SPACE (judged on the model's own runs, never on how the code under test behaved): some
+    # case must take the double-failure path (protocol catch logs, error reply fails, server catch logs)
+    model_two = sum(1 for tr in traces if "model_mark" in tr["case"] and tr["case"]["model_mark"] >= 0
+                    and len(tr["case"]["model_log"]) - tr["case"]["model_mark"] >= 2)
+    if not replay and not chk.violations and (model_two == 0 or len(protos) < 4):
+        raise core.MachineryError("C20: no case of the model takes the double-failure path / fewer than 4 protocol classes")
     nontrivial = len({(tr["case"].get("frame"), tr["case"].get("kind"), tr["case"].get("hl"), tr["case"].get("k"),
                        tr["case"].get("fcls")) for tr in traces if tr["events"][0]["mark"] >= 0})
     cov = {
@@ -216,7 +229,7 @@ def main(chk, replay=None):
         "response_kinds": kinds, "protocol_classes_observed": protos, "defects_in_model": sorted(defects),
         "fault_free_runs": len(base_by_id), "skipped_no_python_write": skipped,
         "writes_per_response": {k: v[0]["nw"] for k, v in sorted(base_by_id.items())},
-        "runs_with_two_records_after_failure": two_records, "drift_summary":
+        "runs_with_two_records_after_failure": two_records, "model_cases_with_two_records_after_failure": model_two, "drift_summary":
             {k: {"n": len(v), "e.g.": v[:3]} for k, v in sorted(drift_summary.items())},
         "bindings": ["B1 measured write counts + conf lists + tree as TLC constants", "B2 TLC closed states replayed",
                      "B3 TraceC20"],
@@ -326,7 +339,7 @@ def _socketpair_family(_job):
               "fcls": "connection-failure", "nw": 0, "id": "socketpair %s :: %s :: client gone %s" % (f, sel, when)}
         ev = {"ev": "conn", "role": "socket", "rq": rq, "proto": proto, "frames": [],
               "log": [{"addr": r["addr"], "proto": r["proto"], "cls": r["cls"], "fam": r["fam"]} for r in recs if r["ev"] == "log"],
-              "esc": esc, "ops": 0, "mark": mark, "nfds": len(leaked), "digest": "", "arts": []}
+              "esc": esc, "ops": 0, "mark": mark, "nfds": len(leaked), "nproc": 0, "digest": "", "arts": []}
         out.append({"id": rq["id"], "init": {"prop": "C20", "hl": c03._HL}, "events": [ev],
                     "extras": [{"leaked": leaked, "log": list(w.logbuf)[:6], "writes": -1,
                                 "wbufsize": pygopherd.server.GopherRequestHandler.wbufsize}],
@@ -393,7 +406,7 @@ def socket_cases(n, lists):
                   "tail": "blank" if f == "h_get" else "none", "fk": 0, "fcls": cls, "nw": 0, "id": "socket %s #%d" % (f, i)}
             ev = {"ev": "conn", "role": "socket", "rq": rq, "proto": recs[0]["proto"] if recs else "none", "frames": [],
                   "log": [{"addr": r["addr"], "proto": r["proto"], "cls": r["cls"], "fam": r["fam"]} for r in recs],
-                  "esc": escaped[0] if escaped else "none", "ops": 0, "mark": 0, "nfds": len(leaked), "digest": "", "arts": []}
+                  "esc": escaped[0] if escaped else "none", "ops": 0, "mark": 0, "nfds": len(leaked), "nproc": 0, "digest": "", "arts": []}
             out.append({"id": rq["id"], "init": {"prop": "C20", "hl": "default"}, "events": [ev],
                         "extras": [{"leaked": leaked, "log": list(logbuf)[:6], "writes": -1}],
                         "case": {"rq": rq, "hl": "default", "kind": "document (real socket, client reset)", "frame": f,
@@ -419,12 +432,14 @@ def selftest():
     b1 = json.loads(json.dumps(good)); b1["id"] = "class-corrupted"; b1["events"][0]["log"][-1]["cls"] = "IndexError"
     b2 = json.loads(json.dumps(good)); b2["id"] = "records-dropped"; b2["events"][0]["log"] = b2["events"][0]["log"][:ev["mark"]]
     b3 = json.loads(json.dumps(good)); b3["id"] = "descriptor-leaked"; b3["events"][0]["nfds"] = 1
+    b5 = json.loads(json.dumps(good)); b5["id"] = "child-left"; b5["events"][0]["nproc"] = 1
     b4 = json.loads(json.dumps(good)); b4["id"] = "escaped"; b4["events"][0]["esc"] = "BrokenPipeError"
-    tv = tlc.validate_traces("TraceC20", "TraceC20_run.cfg", [good, b1, b2, b3, b4], extra_files=ex)
+    tv = tlc.validate_traces("TraceC20", "TraceC20_run.cfg", [good, b1, b2, b3, b4, b5], extra_files=ex)
     got = {r["trace"]["id"]: r["clause"].partition("@")[0] for r in tv["rejected"]}
     print("accepted:", tv["accepted"], "rejected:", got)
     return tv["accepted"] == 1 and got == {"class-corrupted": "OwnClass", "records-dropped": "OwnClass",
-                                           "descriptor-leaked": "FilesClosed", "escaped": "Contained"}
+                                           "descriptor-leaked": "FilesClosed", "escaped": "Contained",
+                                           "child-left": "FilesClosed"}
 
 
 if __name__ == "__main__":
